@@ -1169,6 +1169,12 @@ check(const json& c)
 }
 
 // ---- generator ------------------------------------------------------------------------------------------------------------------------
+inline void
+stats_frame_before_zero(double end)
+{
+  vf::stats().cls(end < 0 ? "exam: frame ends before time 0" : (end == 0 ? "exam: frame ends at time 0" : "exam: frame starts before time 0"));
+}
+
 json
 gen_exam(Src& s, int container)
 {
@@ -1189,10 +1195,21 @@ gen_exam(Src& s, int container)
     nframes = int(s.range(0, 1));
   json frames = json::array();
   double tcur = s.chance(1, 3) ? 0. : s.nice_real(0., 3000.);
+  // frames before the reference time (negative start, e.g. a background frame before injection; TimeFrameDefinitions only demands start <= end
+  // and frames in sequence): frames that end before, AT and after time 0 (round 4: the writer's "is there a frame" guard looked at the end time)
+  const int neg = int(s.range(0, 7));
+  if (neg == 0)
+    tcur = -s.nice_real(0.5, 3000.);
   for (int f = 0; f < nframes; ++f)
     {
-      const double dur = s.nice_real(0.5, 2000.);
+      double dur = s.nice_real(0.5, 2000.);
+      if (neg == 1 && f == 0)
+        { // a frame that ends exactly at time 0
+          tcur = -dur;
+        }
       frames.push_back(json::array({ tcur, dur }));
+      if (tcur < 0)
+        stats_frame_before_zero(tcur + dur);
       tcur += dur + (s.coin() ? 0. : s.nice_real(0., 100.));
     }
   e["frames"] = frames;
